@@ -1,9 +1,9 @@
 (** C14 -- every SDF delay lands on the right line, polarity and dataset; none is lost.  Statements only.
-    The lark grammar of sdf.py is not modelled; everything from the tree handed to the transformer on is
-    (Model/Sdf.v).  [group] / [start_cb] are the code with the D6 fix (entry lists merged per instance);
+    Everything from the tree handed to the transformer on is Model/Sdf.v; the TEXT level (what lark does with sdf.GRAMMAR:
+    contextual lexer and LALR parser, text -> tree) is Model/SdfText.v, statements at the end of this file.  [group] / [start_cb] are the code with the D6 fix (entry lists merged per instance);
     [group_pinned] is the code of the pinned tree, for which the first statement is false (C14_cells_lost_refuted). *)
 From Coq Require Import List ZArith NArith Bool Arith String Ascii.
-From KV Require Import Model.Prims Model.Netlist Model.TechCell Model.Sdf Proofs.SdfProofs.
+From KV Require Import Model.Prims Model.Netlist Model.TechCell Model.Sdf Proofs.SdfProofs Model.SdfText Proofs.SdfTextProofs.
 From KV Require Gen.TechLibs.   (* build dependency only: the generated correspondence cases evaluate the model on these libraries *)
 Import ListNotations.
 Local Open Scope list_scope.
@@ -137,3 +137,62 @@ Proof. exact interconnect_skip_nonneg. Qed.
 Theorem C14_dataset_axis : forall n a d l (ip op : bool), d < 3 -> l < n ->
   nth (if op then 1 else 0) (nth (if ip then 1 else 0) (nth l (nth d (tab n a) []) []) []) 0%Z = dsel d (a l ip op).
 Proof. exact dataset_axis. Qed.
+
+(** ** TEXT level: sdf.GRAMMAR as lark parses it (Model/SdfText.v; [parse_sdf] = the children of lark's start tree, None = lark raises) *)
+(* every way of writing a file covered by the concrete syntax [cfile] -- any ignored text (blanks, tabs, form feeds, newlines, "\r\n",
+   "//" comments) wherever the grammar ignores it, blanks in front of names, header entries, CELLTYPE, (INSTANCE), TIMINGCHECK with any
+   balanced payload, a last comment without newline -- is accepted and parsed to exactly its DESIGN names, INSTANCE names and delay entries *)
+Theorem C14_text_parse_cfile : forall f : cfile, cfile_ok f = true -> parse_sdf (cfile_text f) = Some (cfile_abs f).
+Proof. exact parse_cfile. Qed.
+(* (a) round trip with the printer, for every well-formed tree (names as lark can return them after a blank, number texts over [-.0-9]) *)
+Theorem C14_text_parse_print : forall t : list xsarg, wf_tree t = true -> parse_sdf (print_sdf t) = Some t.
+Proof. exact parse_print. Qed.
+Theorem C14_text_print_is_cfile : forall t : list xsarg, print_sdf t = cfile_text (cfile_of t) /\
+  (wf_tree t = true -> cfile_ok (cfile_of t) = true /\ cfile_abs (cfile_of t) = t).
+Proof. intro t. split; [apply print_is_text | apply cfile_of_ok]. Qed.
+(* (b) ignored text does not matter: two ways of writing the same content parse alike *)
+Theorem C14_text_ignored_text_irrelevant : forall f g : cfile, cfile_ok f = true -> cfile_ok g = true -> cfile_abs f = cfile_abs g ->
+  parse_sdf (cfile_text f) = parse_sdf (cfile_text g).
+Proof. exact same_content_same_parse. Qed.
+(* (c) header entries (SDFVERSION .. TIMESCALE, PROCESS), CELLTYPE, (INSTANCE) and TIMINGCHECK blocks are skipped: removing them from the
+   text leaves the parse unchanged *)
+Theorem C14_text_skipped_items_irrelevant : forall f : cfile, cfile_ok f = true ->
+  parse_sdf (cfile_text (strip_file f)) = parse_sdf (cfile_text f) /\ parse_sdf (cfile_text f) = Some (cfile_abs f).
+Proof. exact skipped_items_irrelevant. Qed.
+(* (d) from the TEXT to the DelayFile: sdf.parse succeeds with [df], and every delay entry written in a DELAY section of a CELL is in [df]
+   under the first INSTANCE name of that CELL (instance-less: in the interconnect list) -- none is lost *)
+Theorem C14_text_entry_kept : forall f t df, cfile_ok f = true -> tree_of_x (cfile_abs f) = Some t -> start_cb t = Ok df ->
+  delayfile_of_text (cfile_text f) = Some (Ok df) /\
+  forall sc items sf sd s1 es sf' s3 se ce,
+    In (sc, CTCell items sf) (cf_items f) -> In (sd, CCDelay s1 es sf' s3) items -> In (se, ce) es ->
+    exists te e, entry_of_x (centry_abs ce) = Some te /\ entry_cb te = Ok e /\ kept_in df (ccell_key items) e.
+Proof. exact text_entry_kept. Qed.
+(* the same for ANY text lark accepts (no reference to how it is written), on lark's tree *)
+Theorem C14_text_entry_kept_any : forall text x t df, parse_sdf text = Some x -> tree_of_x x = Some t -> start_cb t = Ok df ->
+  forall args es xe, In (XSCell args) x -> In (XDelay es) args -> In xe es ->
+  exists te e, entry_of_x xe = Some te /\ entry_cb te = Ok e /\ kept_in df (xcell_key args) e.
+Proof. exact text_entry_kept_any. Qed.
+(* C14_delayfile_of_blocks / C14_cells_none_lost restated from the text *)
+Theorem C14_text_delayfile_of_blocks : forall text t df, tree_of_text text = Some t -> start_cb t = Ok df ->
+  delayfile_of_text text = Some (Ok df) /\
+  exists bs, blocks_of t = Ok bs /\
+    df_name df = first_sname t /\
+    df_ic df = (if has_block None bs then Some (entries_of None bs) else None) /\
+    df_cells df = map (fun s => (s, entries_of (Some s) bs)) (named_keys (first_occ (map fst bs))) /\
+    (forall k, dict_get k (group bs) = if has_block k bs then Some (entries_of k bs) else None).
+Proof. exact text_delayfile_of_blocks. Qed.
+(* the hypotheses are satisfiable: a file with header entries, comments, tabs, "\r\n", TIMINGCHECK and two CELL blocks of one instance *)
+Theorem C14_text_example : cfile_ok ex_file = true /\ cfile_abs ex_file = ex_tree /\ parse_sdf (cfile_text ex_file) = Some ex_tree /\
+  wf_tree ex_tree = true /\ parse_sdf (print_sdf ex_tree) = Some ex_tree /\
+  cfile_abs (strip_file ex_file) = ex_tree /\ List.length (cf_items (strip_file ex_file)) = 4.
+Proof. exact ex_file_ok. Qed.
+Local Open Scope string_scope.
+(* FINDING (grammar): ID and ID_OR_EDGE exclude only the blank, so a newline or tab next to a name is lexed INTO the name: the instance of
+   `(INSTANCE u1` NEWLINE `)` is "u1\n" (its delays are then dropped with a warning by iopaths), `A<TAB>Z` is one pin *)
+Theorem C14_text_name_whitespace_refuted :
+  parse_sdf ("(DELAYFILE(CELL(INSTANCE u1" ++ nl1 ++ ")))") = Some [XSCell [XName ("u1" ++ nl1)]] /\
+  parse_sdf "(DELAYFILE(CELL(INSTANCE u1 )))" = Some [XSCell [XName "u1"]] /\
+  parse_sdf ("(DELAYFILE(CELL(DELAY(ABSOLUTE(IOPATH A" ++ String c_tab "Z (1:2:3))))))") = Some [XSCell [XDelay [XEntry true ("A" ++ String c_tab "Z") "(1:2:3)" []]]] /\
+  exists t, tree_of_text ("(DELAYFILE(CELL(DELAY(ABSOLUTE(IOPATH A" ++ String c_tab "Z (1:2:3))))))") = Some t /\ start_cb t = Err.
+Proof. exact name_whitespace_refuted. Qed.
+Local Close Scope string_scope.
